@@ -7,7 +7,7 @@ os.makedirs(dst, exist_ok=True)
 for f in ("patch.diff", "demo_test.go"):
     shutil.copy(os.path.join(src, f), os.path.join(dst, f))
 m = json.load(open(os.path.join(src, "meta.json")))
-m["confirmed_by_me"] = {"what_i_ran": "tools/confirm_seed.sh (scratch worktree: patch applies, packages build, pinned ./pkg/... tests pass, demo fails with the patch and passes without) and tools/try_patch.sh (git apply in /repo, ./check <property> --tier quick, git reset)",
+m["confirmed_by_me"] = {"what_i_ran": "tools/confirm_seed.sh (scratch worktree: patch applies, packages build, pinned ./pkg/... tests pass, demo fails with the patch and passes without) and tools/try_patch.sh (patch applied to a scratch worktree of /repo's HEAD, ./check <property> run against it through VERIF_REPO, worktree removed)",
                         "caught_by_check": caught == "yes", "how": how}
 json.dump(m, open(os.path.join(dst, "meta.json"), "w"), indent=1)
 print("kept", dst)
